@@ -121,7 +121,13 @@ def gen_case(rng, tier, g):
                      ['ARM', si, rng.choice([1, 2, max(1, ni // 2), ni,
                                              ni + 1]), 1,
                       rng.choice(SOURCE_ERROR_KINDS)])
+    sweep = rng.random() < 0.2
+    if sweep:
+        # configuration enumeration: the same input under EVERY buffersize
+        # 1..n+2 and None x cache on/off, two passes each
+        steps = [['ITER', 't0', 0], ['DRAIN', 't0']]
     return {'prop': PROP, 'op': op, 'tables': tables, 'perms': perms,
+            'sweep': sweep,
             'key': key, 'reverse': rng.random() < 0.35,
             'buffersize': _bufsizes(rng, n0 if op == 'sort' else max(n0, 1)),
             'cache': rng.random() < 0.7, 'tempdir': rng.random() < 0.4,
@@ -298,9 +304,27 @@ def run_case(case):
         with devices.TempSandbox() as sb:
             td = os.path.join(sb.path, 'td')
             os.mkdir(td)
-            result, nsteps, maxfiles = _history(e, case, tables, expected, td,
-                                                sb, log, probes)
-            gc.collect()
+            if case.get('sweep'):
+                n0 = max(len(t) - 1 for t in tables)
+                nsteps = maxfiles = 0
+                result = None
+                for b in list(range(1, n0 + 3)) + [None]:
+                    for cache in (True, False):
+                        sub = dict(case, buffersize=b, cache=cache)
+                        result, ns, mf = _history(e, sub, tables, expected,
+                                                  td, sb, log, probes)
+                        gc.collect()
+                        nsteps += ns
+                        maxfiles = max(maxfiles, mf)
+                        if result is not None:
+                            break
+                    if result is not None:
+                        break
+                probes['buffersize-sweeps'] = 1
+            else:
+                result, nsteps, maxfiles = _history(e, case, tables, expected,
+                                                    td, sb, log, probes)
+                gc.collect()
     finally:
         config.sort_buffersize = saved
     if result is not None:
@@ -394,6 +418,7 @@ def selfcheck(agg):
         return errs
     for p in ('chunked-path', 'buffersize==nrows', 'equal-keys-across-chunks',
               'reverse-chunk-merge-with-ties', 'pass-from-memcache',
+              'buffersize-sweeps',
               'pass-from-filecache', 'key-none'):
         if not agg['probes'].get(p):
             errs.append('probe never hit: ' + p)
